@@ -71,9 +71,29 @@ class Recorder:
       self._f = None
 
 
-def execute(mod, rng=None, case=None, stats=None, oplog=None, keep_log=False, timeout=None, ctx=None):
+def execute(mod, rng=None, case=None, stats=None, oplog=None, keep_log=False, timeout=None, ctx=None, _inner=False):
   """One simulated run (generated from rng, or replayed from case). Never raises for SUT
   misbehaviour; harness bugs propagate as HarnessError."""
+  if getattr(mod, "ISOLATE_RUNS", False) and not _inner:
+    # the run executes in a fork of this (pristine) process; only its results come back
+    limit = (timeout or mod.SOFT_TIMEOUT)
+    ctx2 = None if ctx is None else {k: v for k, v in ctx.items() if k != "beat"}
+
+    def child():
+      st = core.Stats()
+      r = execute(mod, rng=rng, case=case, stats=st, oplog=oplog, keep_log=keep_log, timeout=timeout, ctx=ctx2, _inner=True)
+      return r, st
+    status, val = core.fork_call(child, limit + 15)
+    if status == "timeout":
+      return {"violation": {"signature": "nontermination", "detail": "isolated run killed after %ss" % (limit + 15)}, "digest": "0" * 64, "case": case, "steps": 0, "extra": []}
+    if status != "ok":
+      raise core.HarnessError("isolated run failed: %s" % str(val)[-2000:])
+    r, st = val
+    if stats is not None:
+      stats.merge(st)
+      for smp in st.samples:
+        pass
+    return r
   rec = Recorder(oplog)
   if stats is None:
     stats = core.Stats()
